@@ -42,11 +42,12 @@ type WW struct {
 	Rotated map[string]int
 	Det     map[string]*DetTable // per wallet
 	// what the harness did
-	MintedIn map[string]uint64 // per mint: sat paid in over Lightning for wallet mint quotes
-	Strict   bool
-	NoFaults bool
-	LastOp   string
-	opLog    []opMark
+	MintedIn     map[string]uint64 // per mint: sat paid in over Lightning for wallet mint quotes
+	Strict       bool
+	NoFaults     bool
+	forceSendAll bool
+	LastOp       string
+	opLog        []opMark
 	// notUnspentSeen: wallet|Y of spendable proofs already reported as not UNSPENT at the mint
 	notUnspentSeen map[string]bool
 	Deficit        map[string]int64
@@ -199,6 +200,9 @@ func (ww *WW) StepSend() *OutToken {
 	if ww.T.Chance("send.small", 1, 2) && bal > 20 {
 		amount = uint64(1 + ww.T.Choose("send.amt2", 20))
 	}
+	if ww.forceSendAll {
+		amount = bal - bal/8 - 1 // nearly everything: proofs of every keyset held are needed
+	}
 	fees := ww.T.Chance("send.fees", 1, 2)
 	ww.op(fmt.Sprintf("w.send fees=%v", fees))
 	n := ww.node(w)
@@ -234,6 +238,9 @@ func (ww *WW) StepSend() *OutToken {
 	dleq := ww.T.Chance("send.dleq", 1, 2)
 	if ww.forceDLEQ {
 		dleq = true
+	}
+	if dleq && keysetsOf(proofs) > 1 {
+		ww.rc.S.Probe("mixed_keyset_token_with_dleq")
 	}
 	s, terr := MakeToken(proofs, ww.mintURL(mint), v4, dleq)
 	if terr != nil {
